@@ -39,6 +39,34 @@ MODS = {"DefaultFormatter": FP, "CompactFormatter": FP, "PrettyFormatter": FP, "
 IFACE = ("format_magnitude", "format_unit", "format_quantity", "format_uncertainty", "format_measurement")
 
 
+
+def sort_functions_total_rule(ck, ix):
+    """'Formatting never fails on a valid object', for every sort function: the sort keys are total (no explicit raise
+    for a unit the registry can resolve) and the dimension-order table is a duplicate-free tuple of [dimension] names
+    that contains the '[]' sentinel the key uses for dimensionless units."""
+    CU = "pint.delegates.formatter._compound_unit_helpers"
+    m = ix.module(CU)
+    n = 0
+    for f in m.all_functions:
+        if f.name in ("sort_by_unit_name", "sort_by_display_name", "sort_by_dimensionality", "sort_key"):
+            n += 1
+            ck.analysed(f)
+            raises = [r for r in walk_local(f.node) if isinstance(r, ast.Raise)]
+            ck.check(not raises, "G-EXH", f"{f.qualname.split('::')[1]}|total", f.loc(raises[0]) if raises else f.loc(), "the sort key is defined for every unit",
+                     f"`{norm(raises[0]) if raises else ''}`: a sort key that raises makes formatting fail for valid units (e.g. units of a dimension the order table does not list)")
+    ck.floor("G-EXH", n, 3, "sort functions")
+    ff = ix.cls("pint.delegates.formatter.full", "FullFormatter")
+    tbl = None
+    for a in ff.node.body:
+        if isinstance(a, (ast.Assign, ast.AnnAssign)) and norm(a.targets[0] if isinstance(a, ast.Assign) else a.target) == "dim_order":
+            tbl = a.value
+    ok = isinstance(tbl, (ast.Tuple, ast.List)) and all(isinstance(e, ast.Constant) and isinstance(e.value, str) for e in tbl.elts)
+    ck.check(ok, "G-TABLE", "FullFormatter.dim_order|literal-table", ff.module.relpath, "a literal table of dimension names", "dim_order is no longer a literal tuple of strings")
+    if ok:
+        vals = [e.value for e in tbl.elts]
+        ck.check(len(set(vals)) == len(vals) and all(v.startswith("[") and v.endswith("]") for v in vals), "G-TABLE", "FullFormatter.dim_order|well-formed", ff.module.relpath, "no duplicates, only [dimension] names", f"dim_order is malformed: {vals}")
+        ck.check("[]" in vals, "G-TABLE", "FullFormatter.dim_order|dimensionless-sentinel", ff.module.relpath, "contains the '[]' entry used for dimensionless units", "dim_order lost its '[]' entry: dimensionless units (radian, count, percent) have no position in the dimensional order")
+
 def run(ck, ix, tier):
     ck.rule("G-TABLE", "layout tables of the writers agree with the documented format and with the reader's alphabet")
     # ------------------------------------------------------------ (c) interface completeness
@@ -188,6 +216,7 @@ def run(ck, ix, tier):
 
     # ------------------------------------------------------------ memo discipline of the format helpers
     lru_inventory_rule(ck, ix)
+    sort_functions_total_rule(ck, ix)
     return EXPLANATION
 
 
